@@ -716,6 +716,57 @@ pub fn run(run: &Run) {
     run.rule("Adam and SGD (plain, momentum, Nesterov): 14 objectives (convex and indefinite quadratics in 1..3 and 8 dimensions, two of them running away under the larger steps so that the objective overflows while the iterates are still finite, Rosenbrock, least-squares losses built from exp, sin, powi and division) × 2 starts × step sizes {1e-4,1e-2,.25,.5} (capped per objective) × β1,β2 in {.5,.9,.999}² (ε = 1e-8, and ε in {1e-4,1e-2,1} at β = (.9,.999)) / momentum {0,.5,.9,.99} × Nesterov on/off × every budget k in 0..=32 and every 8th to 200 (0..=64 and every 8th to 2000 thorough), each compared with the published recurrence stepped by the harness; LM: linear (constant, line, quadratic, cubic), exponential and logistic curve fits with fixed noise patterns, 5/12/40/200 points, good and poor starts, every budget 0..=60 (200) and 200; every (configuration, budget) pair is a distinct non-trivial case");
     let _ = Vector::new(vec![0.0]);
     first_order(run);
+    // the Default objects: SGD (step 1e-5, momentum 0.9, Nesterov) and Adam (Kingma-Ba: 1e-3, 0.9, 0.999, 1e-8), as
+    // they are and after set_stepsize, return the iterates of the recurrence for those hyper-parameters
+    {
+        let probs = problems();
+        for p in probs.iter().take(6) {
+            let data: Vec<&[f64]> = p.data.iter().map(|v| v.as_slice()).collect();
+            for theta0 in p.starts.iter().take(2) {
+                for step in [None, Some(0.013), Some(0.25), Some(1e-4)] {
+                    let st_s = step.unwrap_or(1e-5);
+                    let st_a = step.unwrap_or(1e-3);
+                    let traj_s = sgd_model(p.f, theta0, &data, st_s, 0.9, true, 60);
+                    let traj_a = adam_model(p.f, theta0, &data, st_a, 0.9, 0.999, 1e-8, 60);
+                    for k in [1usize, 2, 3, 5, 10, 60] {
+                        for which in 0..2 {
+                            run.case();
+                            run.tr();
+                            run.ok();
+                            run.nontrivial(1);
+                            let (want, name) = if which == 0 { (&traj_s[k], "SGD::default()") } else { (&traj_a[k], "Adam::default()") };
+                            if want.iter().any(|x| !x.is_finite()) {
+                                continue;
+                            }
+                            let got = guard(|| {
+                                if which == 0 {
+                                    let mut o = SGD::default();
+                                    if let Some(s) = step {
+                                        o.set_stepsize(s);
+                                    }
+                                    o.optimize(p.f, theta0, &data, k).v.clone()
+                                } else {
+                                    let mut o = Adam::default();
+                                    if let Some(s) = step {
+                                        o.set_stepsize(s);
+                                    }
+                                    o.optimize(p.f, theta0, &data, k).v.clone()
+                                }
+                            });
+                            match got {
+                                Ok(g) if same_vec(&g, want, 1e-10 * (1.0 + k as f64)) => run.regime("default-optimizers"),
+                                // an early stop at an iterate where the parameters no longer change is accepted as elsewhere
+                                Ok(g) if (1..k).any(|j| { let t = if which == 0 { &traj_s } else { &traj_a }; same_vec(&g, &t[j], 1e-10 * (1.0 + j as f64)) && bits(&t[j]) == bits(&t[j - 1]) }) => run.regime("default-optimizers"),
+                                Ok(g) => run.violate(&format!("{}/default-object/not-the-recurrence", if which == 0 { "SGD" } else { "Adam" }), || format!("{}{} on {} from {:?}, budget {}: returned {:?}, the recurrence of its documented hyper-parameters gives {:?}", name, step.map(|s| format!(" + set_stepsize({})", s)).unwrap_or_default(), p.name, theta0, k, g, want)),
+                                Err(e) => run.violate("optimizer/default-object/panic", || format!("{} on {}: {}", name, p.name, e)),
+                            }
+                        }
+                    }
+                }
+            }
+        }
+        run.require_regime("default-optimizers");
+    }
     lm_suite(run);
     for r in ["Adam", "SGD-plain", "SGD-momentum", "SGD-nesterov", "LM-descent", "LM-covariance-ok", "LM-linear-solved", "runaway: objective overflowed, iterates finite"] {
         run.require_regime(r);
@@ -723,5 +774,6 @@ pub fn run(run: &Run) {
     run.assume("the reference recurrence takes its gradients from the same reverse-mode tape API (so the comparison isolates the update rule); those gradients are checked against analytic ones at 1e-10");
     run.assume("agreement tolerance 1e-10·(1+k) relative per coordinate; configurations whose reference recurrence diverges to inf/NaN are skipped from that budget on");
     run.assume("LM 'reaches the least-squares solution': at budget 200 with the default tolerances either within 1e-5·(1+‖θ*‖) of it or first-order optimal to |JᵀR|∞ ≤ 1e-5 (10× the solver's own gradient tolerance) or at a residual sum of squares within 1e-6 relative of the minimum");
+    run.assume("Default optimizer objects stand for the documented hyper-parameters: SGD 1e-5 / momentum 0.9 / Nesterov, Adam 1e-3 / 0.9 / 0.999 / 1e-8 (Kingma-Ba)");
     run.assume("an early stop of Adam/SGD is accepted exactly when the returned value is an iterate at which the parameters did not change");
 }
